@@ -6,18 +6,19 @@
  * of this unit (see obligations/c14.py META).
  *
  * vm_release is recursive over the object graph.  CBMC has no recursive predicates, so ONE level of the graph is
- * materialised and the ghost flag __verif_h.lvl says how much of the ARGUMENT of a call is materialised:
- *     2  the call under proof: the object, its element store and the HEADER of the child at the ghost index __verif_hk
- *     1  a recursive call on that child (release_* loop iteration i == __verif_hk): its header only
- *     0  a recursive call on any other child: nothing is known, nothing is claimed, nothing is assigned
- * The harness sets lvl = 2; ghost statements inserted in front of the recursive calls (contracts/loops/heap.c.loops)
- * set lvl = (i == __verif_hk).  With --enforce-contract-rec the recursive calls are replaced by THIS contract, whose
- * clauses at lvl 1 are literally the header-level clauses proved at lvl 2 (induction hypothesis on depth).  What is
- * NOT machine-checked (glue, listed in META): that a child's own children are well-formed (VAL_WF holds of the whole
- * heap), and that releasing the children at indices != __verif_hk does not free the child at __verif_hk (that is the
- * census invariant ref_count >= indeg of C14.step.*).
+ * materialised: the object under proof, its element store and the HEADER of the child at the ghost index __verif_hk
+ * (never assigned: arbitrary, i.e. every child).  The recursion is cut at the release_* helper (see the section on
+ * vm_release below): the recursive calls inside a helper's loop are replaced by the CHILD VIEW of vm_release's contract,
+ * whose clauses are the header-level clauses proved for the call under proof (same macro text: induction hypothesis on
+ * depth).  The ghost flag __verif_h.lvl, set by a ghost statement in front of the recursive call (sidecar
+ * contracts/loops/heap.c.loops), tells the child view whether the argument is the materialised child
+ * (iteration i == __verif_hk: lvl 1, header known, precondition checked, effect specified) or another child (lvl 0:
+ * nothing known, nothing claimed, nothing assigned) - the ghost-index reading of contracts/verifier_contracts.h FN_PRE.
+ * What is NOT machine-checked (glue, listed in META): that a child's own children are well-formed (VAL_WF holds of the
+ * whole heap), and that releasing the children at indices != __verif_hk does not free the child at __verif_hk (that is
+ * the census invariant ref_count >= indeg of C14.step.*).
  *
- * Kind of the object under proof at lvl 2: -DVERIF_HKIND=<tag> (case split, strength X); 0 = scalar / NULL.
+ * Kind of the object under proof: -DVERIF_HKIND=<tag> (case split, strength X); 0 = scalar.
  */
 #ifndef HEAP_CONTRACTS_H
 #define HEAP_CONTRACTS_H
@@ -32,7 +33,7 @@
 
 /* ---- the ONE ghost struct of this unit (one assigns target) ---- */
 struct verif_heap_ghost {
-    int lvl;                 /* see above */
+    int lvl;                 /* child view: 1 = the argument is the child at the ghost index, 0 = some other child */
     unsigned kid_calls;      /* vm_release calls delivered to the child at the ghost index (lvl 1 calls) */
     unsigned helper_calls;   /* times the kind's release_* helper ran on the object under proof */
 };
